@@ -194,9 +194,14 @@ pub const REQUESTS: &[&str] = &[
 
 /// Message menu: 0 = didChange of the root document, 1 = didOpen/didChange of a second document
 /// (which becomes the root, so that the previous root leaves the workspace), 2.. = the request kinds,
-/// last = didChange of the root document with the text it already has (a save without an edit).
+/// then didChange of the root document with the text it already has (a save without an edit),
+/// last = didOpen/didChange of a third document that nothing includes (the server has never seen its path).
 pub fn menu_len() -> usize {
-    3 + REQUESTS.len()
+    4 + REQUESTS.len()
+}
+
+fn is_fresh_doc(m: usize) -> bool {
+    m == 3 + REQUESTS.len()
 }
 
 fn is_request(m: usize) -> bool {
@@ -208,6 +213,7 @@ fn message_name(m: usize) -> &'static str {
         0 => "didChange(a)",
         1 => "touch(b)",
         m if is_request(m) => REQUESTS[m - 2],
+        m if is_fresh_doc(m) => "touch(c)",
         _ => "resend(a)",
     }
 }
@@ -240,6 +246,7 @@ pub fn execute(scenario: &[usize], prefix: &[usize], dir: &PathBuf) -> Outcome {
     let handle = rt.handle().clone();
     let uri = uri_of(&dir.join("a.td"));
     let uri_b = uri_of(&dir.join("b.td"));
+    let uri_c = uri_of(&dir.join("c.td"));
     let script: Vec<usize> = scenario.to_vec();
     let (tx, rx) = std::sync::mpsc::channel::<Result<Vec<String>, String>>();
     let sh = shared.clone();
@@ -257,6 +264,7 @@ pub fn execute(scenario: &[usize], prefix: &[usize], dir: &PathBuf) -> Outcome {
                 let mut version = 1;
                 let mut b_open = false;
                 let mut text_of_a = ROOT_TEXT;
+                let mut c_open = false;
                 // message 0 is always didOpen
                 for (k, m) in std::iter::once(usize::MAX).chain(script.iter().copied()).enumerate() {
                     sh.park(Key::Main, Pending::MsgStart(k));
@@ -271,6 +279,21 @@ pub fn execute(scenario: &[usize], prefix: &[usize], dir: &PathBuf) -> Outcome {
                         let n: AnyNotification = serde_json::from_value(json!({ "method": "textDocument/didChange", "params": {
                             "textDocument": { "uri": uri, "version": version }, "contentChanges": [ { "text": text_of_a } ] } }))
                         .unwrap();
+                        let _ = router.notify(n);
+                    } else if is_fresh_doc(m) {
+                        // a document whose path the server meets for the first time (nothing includes it)
+                        version += 1;
+                        let text = if version % 2 == 0 { "class C;\n" } else { "class C;\ndef c : C;\n" };
+                        let n: AnyNotification = if c_open {
+                            serde_json::from_value(json!({ "method": "textDocument/didChange", "params": {
+                                "textDocument": { "uri": uri_c, "version": version }, "contentChanges": [ { "text": text } ] } }))
+                            .unwrap()
+                        } else {
+                            serde_json::from_value(json!({ "method": "textDocument/didOpen", "params": {
+                                "textDocument": { "uri": uri_c, "languageId": "tablegen", "version": version, "text": text } } }))
+                            .unwrap()
+                        };
+                        c_open = true;
                         let _ = router.notify(n);
                     } else if !is_request(m) && m != 1 {
                         // the same text again, under a new version
@@ -344,9 +367,12 @@ pub fn execute(scenario: &[usize], prefix: &[usize], dir: &PathBuf) -> Outcome {
             st = g;
             if to.timed_out() && t0.elapsed() > machinery_deadline {
                 st.abandon = true;
+                // every lock the model knows was free for this thread, handlers are straight-line between
+                // schedule points and take microseconds: it waits on something else (an unhooked wait that
+                // is never satisfied) or does not terminate - a liveness failure either way
                 out.problem = Some((
-                    "machinery".into(),
-                    format!("a resumed thread neither parked nor finished within {machinery_deadline:?}: the lock model disagrees with reality; running={:?} log tail={:?}", st.running, st.log.iter().rev().take(6).collect::<Vec<_>>()),
+                    "stall".into(),
+                    format!("a resumed thread neither reached its next schedule point nor finished within {machinery_deadline:?} although the lock model had it enabled; running={:?} log tail={:?}", st.running, st.log.iter().rev().take(6).collect::<Vec<_>>()),
                 ));
                 shared.cv.notify_all();
                 drop(st);
@@ -451,7 +477,12 @@ fn explore_scenario(scenario: &[usize], dir: &PathBuf, prune: bool, ctx: &mut Ct
             ctx.fail(Failure::new("deadlock", show_scenario(scenario), format!("schedule {schedule:?}: {d}"), case_json(scenario, &schedule)));
         }
         if let Some((c, d)) = &out.problem {
-            ctx.fail(Failure::new(c, show_scenario(scenario), format!("schedule {schedule:?}: {d}"), case_json(scenario, &schedule)));
+            if c == "machinery" {
+                // a disagreement between the harness and itself is not a verdict about the server
+                ctx.machinery_error(format!("{} @ schedule {schedule:?}: {d}", show_scenario(scenario)));
+            } else {
+                ctx.fail(Failure::new(c, show_scenario(scenario), format!("schedule {schedule:?}: {d}"), case_json(scenario, &schedule)));
+            }
         }
         for s in &out.states {
             distinct_states.insert(s.clone());
@@ -497,10 +528,10 @@ impl Engine for C08 {
 
     fn rule(&self, tier: Tier) -> String {
         format!(
-            "scenarios didOpen ; m2 [; m3 [; m4]] with m in {{didChange of the root document (alternating between two texts), didChange of the root document with the text it already has, didOpen/didChange of a second document (the root switches, the old root leaves the workspace), definition, references, hover, documentSymbol, inlayHint, completion, documentLink, foldingRange}}: all {} scenarios; \
+            "scenarios didOpen ; m2 [; m3 [; m4]] with m in {{didChange of the root document (alternating between two texts), didChange of the root document with the text it already has, didOpen/didChange of a second document (the root switches, the old root leaves the workspace), didOpen/didChange of a third document that nothing includes (its path is new to the server), definition, references, hover, documentSymbol, inlayHint, completion, documentLink, foldingRange}}: all {} scenarios; \
              for each, EVERY schedule of the schedule points (message start, file-table lock wants, salsa input writes, task start/finish) is executed on the real Server router with real salsa and the real tokio blocking pool, \
              depth-first over all choice sequences{}. states = distinct (parked threads, program counters, lock model) configurations at choice points; transitions = resumptions; non-trivial = schedules with at least one real choice.",
-            tier.pick("11 two-message and 121 three-message", "11 + 121 + 1331 (two-, three- and four-message)"),
+            tier.pick("12 two-message and 144 three-message", "12 + 144 + 1728 (two-, three- and four-message)"),
             tier.pick("", "; four-message scenarios do not re-expand an already expanded state (sound because handlers are straight-line between schedule points)")
         )
     }
